@@ -532,6 +532,10 @@ pub fn drive<C: Check>(check: &C, opts: &Opts, extra: Vec<ExtraPhase>) -> i32 {
     // report at most 3 distinct invariants
     let mut seen_inv = BTreeSet::new();
     for f in &res.found {
+        if f.violation.invariant.starts_with("harness:") {
+            eprintln!("HARNESS-ERROR run {}: {} ({})", f.index, f.violation.invariant, f.violation.detail);
+            return 2;
+        }
         if !seen_inv.insert(f.violation.invariant.clone()) || seen_inv.len() > 3 {
             continue;
         }
